@@ -213,7 +213,7 @@ Definition tmps_beyond (n : Z) (run : dfrun) : Prop :=
   forall i dc m, nth_z (dr_ctxs run) i = Some dc -> In m (Defrag.c_moves (dc_ctx dc)) -> n <= tmp_of m.
 
 Lemma pass_loop_BB fuel : forall v run p n,
-  VamInv c v -> MM ms0 v [] -> BInv v G [] -> run_idle run -> 0 <= dr_max_bytes run -> 0 <= dr_max_allocs run -> PassProofs.pass_running p -> VamGran.GV v ->
+  VamInv c v -> MM ms0 v [] -> BInv v G [] -> run_idle run -> 0 <= dr_max_bytes run -> 0 <= dr_max_allocs run -> PassProofs.pass_running p -> VamGran.GV c v ->
   n <= zlen (v_tab v) ->
   let '(v', run', r) := pass_loop c fuel v run p in match r with OK _ => BInv v' G [] /\ tmps_beyond n run' | _ => True end.
 Proof.
@@ -487,7 +487,7 @@ Lemma idle_tmps_unmapped run : drun_idle run -> tmps_unmapped run.
 Proof using. destruct run as [rn|]; [|exact (fun _ => I)]. intros Hi i dc m Hn Hm. rewrite (Hi _ _ Hn) in Hm. destruct Hm. Qed.
 
 Lemma dexec_BB v run o :
-  VamInvB v [] [] -> VamGran.GV v -> drun_ok v run -> dop_ok v run o -> tmps_unmapped run ->
+  VamInvB v [] [] -> VamGran.GV c v -> drun_ok v run -> dop_ok v run o -> tmps_unmapped run ->
   (match o with DEnd _ => pending_unmapped run | _ => True end) ->
   let '(v', run', r, dr) := dexec c v run o in
   match r with OK _ | ER _ => BInv v' G [] /\ tmps_unmapped run' | _ => True end.
@@ -531,7 +531,7 @@ Definition dop_bal (G : Z -> Z) (run : option dfrun) (o : dop) : Prop :=
   end.
 
 Theorem dstep_preservesB G v run o f :
-  VamAcctStep.VamInvA c v [] [] -> MapInv v [] -> BInv v G [] -> VamGran.GV v -> drun_ok v run -> dop_ok v run o -> tmps_unmapped G run -> dop_bal G run o ->
+  VamAcctStep.VamInvA c v [] [] -> MapInv v [] -> BInv v G [] -> VamGran.GV c v -> drun_ok v run -> dop_ok v run o -> tmps_unmapped G run -> dop_bal G run o ->
   let '(v', run', r, calls, dr) := dstep c v run o f in
   r <> RPanic -> r <> RStuck -> BInv v' G [] /\ tmps_unmapped G run'.
 Proof.
@@ -548,7 +548,7 @@ Proof.
   assert (Hok0 : dop_ok v0 run o) by (destruct o; cbn in *; auto).
   assert (Hbal0 : match o with DEnd _ => pending_unmapped G run | _ => True end).
   { destruct o; auto. destruct run as [rn|]; [|exact I]. intros i dc m Hn Hm. split; [eapply Hbal; eauto|eapply Htm; eauto]. }
-  pose proof (dexec_BB c Hc Hmax Hlarge ms0 G v0 run o I0 (VamGran.GR_set_m v _ HV) Hr0 Hok0 Htm Hbal0) as E.
+  pose proof (dexec_BB c Hc Hmax Hlarge ms0 G v0 run o I0 (VamGran.GR_set_m c v _ HV) Hr0 Hok0 Htm Hbal0) as E.
   destruct (dexec c v0 run o) as (((v1 & run1) & r) & dr).
   intros Hp Hs. destruct r as [[]|code| |]; cbn in Hp, Hs; try congruence; destruct E as (B & T); (split; [apply BInv_mach; exact B|exact T]).
 Qed.
